@@ -200,11 +200,17 @@ Fixpoint spec_logs (cfg : scfg) (hl : list (Z * list Z)) (evs : list event) : li
 Definition spec_final (k : scase) : list (Z * list Z) :=
   spec_logs (k_cfg k) (map (fun u => (u, @nil Z)) (k_hosted k)) (k_evs k).
 
-Definition prop_c10 (k : scase) : bool :=
+(* C10 is judged in two independent parts, so that a known defect in one cannot absorb a failure of the other *)
+
+(* stores: WHICH units execute WHICH requests *)
+Definition prop_c10_stores (k : scase) : bool :=
   (* every hosted unit executed exactly the requests addressed to it (or broadcast), once each, in order *)
   list_eqb log_eqb (spec_final k) (k_logs k) &&
   (* tables of a unit nobody addressed are untouched *)
-  forallb (fun u => match assoc (spec_final k) u with Some (_ :: _) => true | _ => false end) (k_changed k) &&
+  forallb (fun u => match assoc (spec_final k) u with Some (_ :: _) => true | _ => false end) (k_changed k).
+
+(* output: what is (not) sent for absent units and for broadcasts *)
+Definition prop_c10_outs (k : scase) : bool :=
   (* absent unit (at the time of the request): no answer or a gateway exception *)
   forallb (fun hc => let c := snd hc in
                     if is_missing (k_cfg k) (fst hc) c && negb (is_bcast (k_cfg k) c)
@@ -214,12 +220,16 @@ Definition prop_c10 (k : scase) : bool :=
                          | _ => false
                          end
                     else true) (with_hosted (k_hosted k) (k_evs k)) &&
-  (* broadcast: no response *)
+  (* broadcast: no response, whatever happens on the units *)
   forallb (fun c => if is_bcast (k_cfg k) c then match outs_for k c with [] => true | _ => false end else true)
           (k_reqs k).
 
+Definition prop_c10 (k : scase) : bool := prop_c10_stores k && prop_c10_outs k.
+
 Definition chk_c09 (k : scase) : bool * bool := (model_agrees k, prop_c09 k).
 Definition chk_c10 (k : scase) : bool * bool := (model_agrees k, prop_c10 k).
+Definition chk_c10_stores (k : scase) : bool * bool := (model_agrees k, prop_c10_stores k).
+Definition chk_c10_outs (k : scase) : bool * bool := (true, prop_c10_outs k).
 
 (* ------------------------------------------------------------------ unit filter cases *)
 
